@@ -1,6 +1,6 @@
 (* C12 — clients hand every received message to the application once, in order. *)
 From Coq Require Import ZArith List Bool.
-From HP Require Import Bytes Wire ParamsOK AioSession AioFacts TwSession LegacyClient LegacyFacts LegacyStream BlkSession BlkFacts.
+From HP Require Import Bytes Wire ParamsOK AioSession AioFacts AioStream TwSession LegacyClient LegacyFacts LegacyStream BlkSession BlkFacts.
 Import ListNotations.
 
 (* asyncio: in every reachable state  (handed to read()/__anext__) ++ (waiting in read_queue) = every OP_PUBLISH
@@ -8,6 +8,18 @@ Import ListNotations.
    arrivals, reads, losses and reconnections *)
 Theorem C12_asyncio : forall ident secret es, Q (arun ident secret es).
 Proof. exact run_Q. Qed.
+
+(* ... and what is put into the queue is what the broker sent: one data_received(chunk) on a live connection whose
+   buffered bytes ++ chunk decode (Wire.parse, chunking-independent by C06) to well-formed OP_PUBLISH frames fs puts
+   exactly the messages of fs into read_queue, in order, each once, keeps exactly the incomplete tail r buffered, raises
+   nothing and leaves the connection open.  The Twisted glue runs the same do_data (TwSession.tstep, TData) *)
+Theorem C12_asyncio_stream : forall ident secret s k chunk fs r,
+  (k < length (conns s))%nat -> cclosing (getc s k) = false -> clost (getc s k) = false ->
+  parse limitP (cbuf (getc s k) ++ chunk) = (fs, r, None) -> Forall is_pub fs ->
+  let s' := do_data ident secret k chunk s in
+  recvd s' = recvd s ++ msgs_of fs /\ queue s' = queue s ++ msgs_of fs /\ cbuf (getc s' k) = r /\
+  raised s' = raised s /\ delivered s' = delivered s /\ cclosing (getc s' k) = false /\ cout (getc s' k) = cout (getc s k).
+Proof. exact data_publishes. Qed.
 
 Theorem C12_twisted : forall ident secret es, Q (trun ident secret es).
 Proof. exact trun_Q. Qed.
@@ -41,6 +53,7 @@ Proof. exact brun_Qb. Qed.
 
 Print Assumptions C12_asyncio.
 Print Assumptions C12_blocking_session.
+Print Assumptions C12_asyncio_stream.
 Print Assumptions C12_twisted.
 Print Assumptions C12_legacy_recv.
 Print Assumptions C12_legacy_stream.
